@@ -109,6 +109,14 @@ def atomic_only(prog, chk, rid):
 
 # ----------------------------------------------------------------------------- C09.b
 
+def _conjuncts(f, e):
+    e = f.strip(e)
+    n = f.nodes[e]
+    if n["k"] == "BinaryOperator" and n.get("op") == "&&":
+        return _conjuncts(f, n["c"][0]) + _conjuncts(f, n["c"][1])
+    return [e]
+
+
 def release_idiom(prog, chk, rid, fams=tuple(FAMILIES), floor=12):
     chk.rule(rid, "DOM: every delete of a shared block and every payload destructor in clear() is control-dependent on "
                   "`Atomic::decrement(x->ref) == 0` evaluated in that condition, itself guarded by the owned test; no decrement "
@@ -159,8 +167,14 @@ def release_idiom(prog, chk, rid, fams=tuple(FAMILIES), floor=12):
                 n0 = f.nodes[x0]
                 if n0["k"] == "DeclRefExpr" and n0["ref"].get("dk") == "local":
                     dl_ = [d_ for d_ in defs_.get(n0["ref"]["id"], []) if d_[2] is not None and d_[0] != "addr"]
-                    nz_ = [f.strip(d_[2]) for d_ in dl_ if not q.is_zero(f, d_[2])]
-                    if nz_ and all(z in tests for z in nz_) and len(set(tests[z] for z in nz_)) == 1:
+                    nz_ = []
+                    for d_ in dl_:
+                        if q.is_zero(f, d_[2]):
+                            continue
+                        # a conjunction is true only when each conjunct was: `owned && decrement == 0` names the test as well
+                        cj_ = [z for z in _conjuncts(f, d_[2]) if z in tests]
+                        nz_.append(cj_[0] if cj_ else None)
+                    if nz_ and all(z is not None for z in nz_) and len(set(tests[z] for z in nz_)) == 1:
                         return nz_[0]
                 return None
             for i, t, kind in rel:
